@@ -6,6 +6,8 @@ and inline fragments, on object / interface / union parents). The reference vali
 edited document invalid (otherwise the edit is not counted); the real generator must answer with an
 error or a panic carrying a message - never with code.
 """
+import json
+
 import gql
 import space
 from gql import Field, Inline, Spread, FragDef, Op, Doc
@@ -133,7 +135,20 @@ def run(tier):
             cases.append({"edit": "missing_root_type", "where": op.kind + " (a type of the conventional name exists, the schema block does not list it)",
                           "schema": "CORE with `schema { query: Q }` and plain object types Mutation / Subscription",
                           "sdl": variants["shadow_roots"], "doc": doc, "base": gql.render_doc(doc)})
-    reqs = [gen_request(c["sdl"], gql.render_doc(c["doc"]), tokens=False) for c in cases]
+    # rejection must not depend on the options: up to N instances of every edit kind once more under other option sets
+    from genlib import DEFAULT_OPTS
+    OPTION_SETS = [{"other_variant": True, "normalization": "rust"}, {"deprecation": "deny", "skip_none": True},
+                   {"mode": "derive", "struct_ident": "Op", "operation_name": "Op"}]
+    per_kind = {}
+    extra = []
+    for c in cases:
+        k = c["edit"]
+        per_kind[k] = per_kind.get(k, 0) + 1
+        if per_kind[k] <= (60 if tier == "quick" else 600):
+            for o in OPTION_SETS:
+                extra.append(dict(c, opts=o))
+    cases = cases + extra
+    reqs = [gen_request(c["sdl"], gql.render_doc(c["doc"]), dict(DEFAULT_OPTS, **c["opts"]) if c.get("opts") else None, tokens=False) for c in cases]
     log(f"[C06] {len(base)} valid base operations, {len(cases)} invalid documents")
     resps = generate(reqs, progress=20000)
     outcomes = {}
@@ -143,8 +158,8 @@ def run(tier):
         q = gql.render_doc(c["doc"])
         st = r["status"]
         outcomes[st] = outcomes.get(st, 0) + 1
-        distinct.add((c["edit"].replace("_first", ""), c["where"], c["base"]))
-        label = {"schema": c["schema"], "edit": c["edit"], "where": c["where"], "query": q}
+        distinct.add((c["edit"].replace("_first", ""), c["where"], c["base"], json.dumps(c.get("opts"), sort_keys=True)))
+        label = {"schema": c["schema"], "edit": c["edit"], "where": c["where"], "query": q, "options": c.get("opts") or "default"}
         if st == "ok":
             sigs = set()
             if c["edit"] == "missing_subselection":
@@ -169,7 +184,9 @@ def run(tier):
                 "+ one invalidating edit (unknown field, sub-selection on leaf, none on composite, undefined fragment, "
                 "unknown / impossible type condition, __typename removed from an abstract selection, extra subscription root "
                 "field, anonymous operation, missing root type) at one selection set; only edits the reference validator "
-                "confirms as invalid are counted; distinct = (edit kind, position, base operation)",
+                "confirms as invalid are counted; up to 60 (thorough 600) instances per edit kind are repeated under three other "
+                "option sets (other-variant + rust normalization; deny + skip-none; derive mode); distinct = (edit kind, position, "
+                "base operation, option set)",
         "base_operations": len(base), "edits_not_invalidating_skipped": not_invalidating,
         "distinct_outcomes": outcomes, "exhaustive": False,
         "samples": pick_samples(samples, 8),
